@@ -652,6 +652,9 @@ func gen(o *kit.Out, r *kit.Rand, tier string) {
 		for i := range all {
 			all[i] = i
 		}
+		if !thorough && n == 5 {
+			all = []int{0, 4} // the deepest and the shallowest leaf
+		}
 		treeCase(o, rs, fmt.Sprintf("allbits-%d", n), items, all, true, 0)
 	}
 	// boundary table 3: duplicates (an index mutation may legitimately verify)
@@ -821,13 +824,14 @@ func genBP(o *kit.Out, r *kit.Rand, thorough bool) {
 	o.Op("bpcommit")
 	o.Op("bpprove 6b")
 	sizes := []int{1, 2, 3, 5, 31, 32, 33, 64, 65, 200}
-	nbits := 150
+	nbits := 64
 	if thorough {
 		sizes = append(sizes, 1023, 1024, 1025, 1100, 3000)
 		nbits = 1500
+		// small trees with EVERY proof bit of both operators flipped (quick: the corpus does this)
+		bpCase(o, r, "bp-allbits-3", 3, 1, false, 2, 100000)
+		bpCase(o, r, "bp-allbits-40", 40, 2, false, 2, 100000)
 	}
-	// one small tree with EVERY proof bit of both operators flipped
-	bpCase(o, r, "bp-allbits", 3, 1, false, 2, 100000)
 	for _, n := range sizes {
 		np := 4
 		if n > 500 {
